@@ -26,6 +26,12 @@ def run(ck: Check, prog: Program) -> None:
     ck.require('DECOR-ORDER', 'call sites of _send in the client module', n_sites, 4)
     for f_, line, construct, msg in rp:
         ck.finding('DECOR-ORDER', f_.qualname, construct, f_.module.rel, line, msg)
+    from .cfacts import trace_ctx_forwarding_problems
+    n_fw, fp = trace_ctx_forwarding_problems(prog)
+    ck.ob('TRACE-CTX', f'{n_fw} places hand the caller\'s trace context on to the next client function', not fp, sample={'sites': n_fw})
+    ck.require('TRACE-CTX', 'trace-context forwarding sites in the client module', n_fw, 8)
+    for f_, line, construct, msg in fp:
+        ck.finding('TRACE-CTX', f_.qualname, construct, f_.module.rel, line, msg)
     for cr in crs:
         half = cr.cls.name
         ck.functions |= {cr.traced_wrapper.qualname, cr.retried_wrapper.qualname, cr.send_impl.qualname}
